@@ -242,7 +242,7 @@ class Element(object):
                 eg = 0.
             soilLat = eg * parameter.waterDens * parameter.lv
 
-            if simTime.month < parameter.vegStart and simTime.month > parameter.vegEnd:
+            if simTime.month < parameter.vegStart or simTime.month > parameter.vegEnd:
                 # Winter, no veg
                 self.solAbs = (1.0 - self.albedo) * self.solRec  # (W m-2)
                 vegLat = 0.
